@@ -52,6 +52,24 @@ func single(n exact.Num) (class, detail string, facts map[string]any) {
 		return "roundtrip-unequal", fmt.Sprintf("%s parses back as %v, not Equal", yn.String(), back), facts
 	}
 	if n.FD == 0 {
+		// constructors: the same value built from a Go integer
+		if !n.Neg {
+			if u := yang.FromUint(n.Mag); !u.Equal(yn) || u.String() != n.String() || yn.Less(u) || u.Less(yn) {
+				return "from-uint", fmt.Sprintf("FromUint(%d) = %s, exact %s", n.Mag, u.String(), n.String()), facts
+			}
+		}
+		if v := n.Scaled(); true {
+			v.Div(v, exact.Pow10(18))
+			if v.IsInt64() {
+				want := n.String()
+				if n.Mag == 0 {
+					want = "0"
+				}
+				if f := yang.FromInt(v.Int64()); !f.Equal(yn) || f.String() != want {
+					return "from-int", fmt.Sprintf("FromInt(%d) = %s, exact %s", v.Int64(), f.String(), want), facts
+				}
+			}
+		}
 		i, err := yn.Int()
 		v := n.Scaled()
 		v.Div(v, exact.Pow10(18))
